@@ -11,17 +11,39 @@ package planner
 // queryPlan.Execute is checked against these preconditions (everything else in Execute - Init, the
 // goroutine fan-out of the pattern stage - is outside the subset and havoced).
 //@ ghost field queryPlan.#stage Int
-//@ props C12 C13 C11 C03
+//@ props C12 C13 C11 C03 C08
 //@ func (p *queryPlan) processGraphPattern
 //@   nobody
 //@   opt modifies-everything
 //@   requires[stage] p != nil && p.#stage == 0
 //@   ensures[stage] p.#stage == 1
+// projectAndGroupBy (C11). With GROUP BY: the table is reduced with one accumulator per projection -
+// none for a plain binding, a counter for COUNT, a distinct counter for COUNT(DISTINCT ...), an
+// int64 or float64 adder for SUM according to the literal in the first row - under the projection's
+// input and output names, sorted by the projected group-by bindings; an error of the projection or of
+// the reduction is returned, and a table without rows is not a failure.
+//@ spec macro accFor(a table.AliasAccPair, q *semantic.Projection) Bool = a.InAlias == q.Binding && a.OutAlias == ite(q.Alias == "", q.Binding, q.Alias) && (q.OP == lexer.ItemCount ==> ite(q.Modifier == lexer.ItemDistinct, typeis(a.Acc, "*table.countDistinctAcc"), typeis(a.Acc, "*table.countAcc"))) && (q.OP == lexer.ItemSum ==> typeis(a.Acc, "*table.sumInt64") || typeis(a.Acc, "*table.sumFloat64")) && (q.OP != lexer.ItemCount && q.OP != lexer.ItemSum ==> a.Acc == nil)
 //@ func (p *queryPlan) projectAndGroupBy
-//@   nobody
 //@   opt modifies-everything
-//@   requires[stage] p != nil && p.#stage == 1
-//@   ensures[stage] p.#stage == 2
+//@   requires p != nil && p.stm != nil && p.tbl != nil && p.tbl.#lock_mu == 0 && p.tbl.mbs != nil && bindingSet(p.tbl.mbs)
+//@   requires[stage] p.#stage == 1
+//@   ghostset p.#stage = 2
+//@   requires[projections-present] forall k int :: {p.stm.projection[k]} 0 <= k && k < len(p.stm.projection) ==> p.stm.projection[k] != nil
+//@   requires[a-group-by-binding-is-projected] len(p.stm.groupBy) > 0 ==> (exists k int :: {p.stm.projection[k]} 0 <= k && k < len(p.stm.projection) && (exists g int :: {p.stm.groupBy[g]} 0 <= g && g < len(p.stm.groupBy) && p.stm.groupBy[g] == p.stm.projection[k].Binding))
+//@   requires[rows-carry-the-projected-bindings] forall j int, k int :: {p.tbl.Data[j], p.stm.projection[k]} 0 <= j && j < len(p.tbl.Data) && 0 <= k && k < len(p.stm.projection) ==> p.tbl.Data[j] != nil && has(p.tbl.Data[j], p.stm.projection[k].Binding) && wfCell(p.tbl.Data[j][p.stm.projection[k].Binding])
+//@   ensures[table-error-surfaces] p.tbl.#failed && !old(p.tbl.#failed) ==> result != nil
+//@   loop 0 invariant p.tbl == old(p.tbl) && p.stm == old(p.stm) && p.tbl.#lock_mu == 0 && p.tbl.#failed == old(p.tbl.#failed) && p.tbl.mbs != nil && bindingSet(p.tbl.mbs)
+//@   loop 1 invariant p.tbl == old(p.tbl) && p.stm == old(p.stm) && p.tbl.#lock_mu == 0 && p.tbl.#failed == old(p.tbl.#failed) && p.tbl.mbs != nil && bindingSet(p.tbl.mbs)
+//@   loop 2 invariant[frame] p.tbl == old(p.tbl) && p.stm == old(p.stm) && p.stm.projection == old(p.stm.projection) && p.stm.groupBy == old(p.stm.groupBy) && p.tbl.#lock_mu == 0 && p.tbl.#failed == old(p.tbl.#failed) && p.tbl.Data == old(p.tbl.Data) && 0 <= $i && $i <= len(p.stm.projection) && mapBindings != nil
+//@   loop 2 invariant[rows] forall j int, k int :: {p.tbl.Data[j], p.stm.projection[k]} 0 <= j && j < len(p.tbl.Data) && 0 <= k && k < len(p.stm.projection) ==> p.stm.projection[k] != nil && p.tbl.Data[j] != nil && has(p.tbl.Data[j], p.stm.projection[k].Binding) && wfCell(p.tbl.Data[j][p.stm.projection[k].Binding])
+//@   loop 2 invariant[accumulators] len(aaps) == $i && (forall k int :: {aaps[k]} 0 <= k && k < $i ==> accFor(aaps[k], p.stm.projection[k]))
+//@   loop 2 invariant[sort-keys] (forall c int :: {deref(addr(cfg))[c]} 0 <= c && c < len(deref(addr(cfg))) ==> !deref(addr(cfg))[c].Desc && (exists g int :: {p.stm.groupBy[g]} 0 <= g && g < len(p.stm.groupBy) && p.stm.groupBy[g] == deref(addr(cfg))[c].Binding) && (exists k int :: {p.stm.projection[k]} 0 <= k && k < $i && p.stm.projection[k].Binding == deref(addr(cfg))[c].Binding))
+//@   loop 2 invariant[a-key-once-seen] forall k int :: {p.stm.projection[k]} 0 <= k && k < $i && (exists g int :: {p.stm.groupBy[g]} 0 <= g && g < len(p.stm.groupBy) && p.stm.groupBy[g] == p.stm.projection[k].Binding) ==> len(deref(addr(cfg))) >= 1
+//@   loop 2 invariant[a-marked-key-is-a-sort-key] forall b string :: {has(mapBindings, b)} has(mapBindings, b) && mapBindings[b] ==> len(deref(addr(cfg))) >= 1
+//@   loop 3 invariant[frame] p.tbl == old(p.tbl) && p.stm == old(p.stm) && p.stm.projection == old(p.stm.projection) && p.stm.groupBy == old(p.stm.groupBy) && p.tbl.#lock_mu == 0 && p.tbl.#failed == old(p.tbl.#failed) && p.tbl.Data == old(p.tbl.Data) && 0 <= $i && $i <= len(p.stm.groupBy) && 0 <= $outer && $outer < len(p.stm.projection) && prj == p.stm.projection[$outer] && mapBindings != nil
+//@   loop 3 invariant[found] found <==> (exists g int :: {p.stm.groupBy[g]} 0 <= g && g < $i && p.stm.groupBy[g] == prj.Binding)
+//@   atcall Reduce assert[one-accumulator-per-projection] len(aaps) == len(p.stm.projection) && (forall k int :: {aaps[k]} 0 <= k && k < len(aaps) ==> accFor(aaps[k], p.stm.projection[k]))
+//@   atcall Reduce assert[sorted-by-projected-group-bindings] forall c int :: {cfg[c]} 0 <= c && c < len(cfg) ==> !cfg[c].Desc && (exists g int :: {p.stm.groupBy[g]} 0 <= g && g < len(p.stm.groupBy) && p.stm.groupBy[g] == cfg[c].Binding) && (exists k int :: {p.stm.projection[k]} 0 <= k && k < len(p.stm.projection) && p.stm.projection[k].Binding == cfg[c].Binding)
 //@ func (p *queryPlan) Execute
 //@   opt modifies-everything
 //@   opt obligations pre:stage post
